@@ -30,10 +30,12 @@ func TestMain(m *testing.M) {
 		Property: "C16",
 		Rule: "every case is one input (or a short sequence of inputs) for one decoding entry point, produced by STRUCTURE-AWARE MUTATION of a valid " +
 			"encoding written by the real encoder (every length/count/tag/id field set to hostile constants, truncation at and around every field " +
-			"boundary, trailing bytes, record duplicate/delete/swap, consistent re-framing with illegal contents, bit flips) or, for SQL text, by a " +
-			"grammar-based generator plus token-level mutation. The target runs in a child goroutine that recovers panics; oracle: returns (value,nil) " +
+			"boundary, trailing bytes, record duplicate/delete/swap, consistent re-framing with illegal contents, bit flips) or, for SQL text, by token-level " +
+			"mutation (same-lexical-class replacement, delete/dup/swap/splice, deep nesting, repetition) of 1811 statements taken from the repository's " +
+			"own tests plus hand-written hostile ones; for protobuf replies by field-wise mutation through protoreflect (absent sub-messages, digests of " +
+			"the wrong length, hostile integers, resized lists) passed through the wire format. The target runs in a child goroutine that recovers panics; oracle: returns (value,nil) " +
 			"or (_,err) within 30 s and with < 64 MiB (+64x input) of heap allocation, a returned value survives its own accessors/re-encoding, and for " +
-			"stateful targets (ReplicateTx, store/index/appendable open) a rejected input leaves the component unchanged (same state, honest next " +
+			"stateful targets (ReplicateTx, the Go client's Verified* calls, store/index/aht/appendable open) a rejected input leaves the component unchanged (same state, honest next " +
 			"input still accepted). NON-TRIVIAL: the input passed the first validation step of the parser (it got past the prologue: e.g. header " +
 			"parsed, file metadata accepted, SQL lexed+parsed, first record framed) or is a single-field mutation of a valid encoding; DISTINCT by " +
 			"hash of (target, base encoding shape, mutated field, mutation class).",
@@ -45,6 +47,11 @@ func TestMain(m *testing.M) {
 			"pgmeta.MaxMsgSize (the frame/parameter size limit of the pgsql server, a package variable) is set to 4 MiB instead of 32 MiB for the whole run: same code paths, 8x less memory churn per Bind evaluation",
 			"pgsql session read loop over net.Pipe is not driven (session type is unexported and needs a full server); its per-message parsers (fmessages.Parse*) are called with exactly the payloads ReadRawMessage can hand over (any length 0..MaxMsgSize)",
 			"native fuzz targets run in the thorough tier only; quick tier replays their seed corpus",
+			"decoders that immudb runs in background goroutines (the store's indexers incl. the SQL index-entry mapper, tbtree insert helpers) are exercised in a long-lived worker process (a copy of the test binary); the death of the worker is attributed to the request it was serving",
+			"two SQL findings (F28, F29) are excluded by root-cause signature of the panic (they cannot be recognised from the SQL text without the parser); LPAD/RPAD/REPEAT statements are parsed but not executed while F29 is known",
+			"execution time of SQL that parsed is not bounded by the property: an execution that does not finish is labelled, not failed; RECURSIVE / generate_series statements are parsed, not executed",
+			"the indexer retrying for ever on an entry its mapper rejects (indexing stalls) is by design and only labelled",
+			"not covered: pgsql session loop over a socket, document-layer id/field parsers, remote (S3) appendables, tbtree nodes reached only through compaction; MAX_TX_ENTRIES-class limits and the tbtree root-node size stay known findings without patch",
 		},
 		Probes: probes(),
 	})
